@@ -48,49 +48,77 @@ def _squeeze(p):
 
 
 # normalised-AST hashes (docstrings and comments dropped) of every function Model/Sgml.v and Model/Serialize.v transcribe by hand, for the REPAIRED
-# source (fixes e7395eb, 8ba58b0, 29e64bd).  A changed hash makes `source_is_pinned = false` in Gen/SgmlGen.v, which breaks the obligation
-# Props/*/source_is_repaired_variant.v: the model is then no longer tied to the source (reported as such even when the rewrite is harmless; the
-# property predicate and the correspondence still look for a failing input).
+# source (fixes e7395eb, 8ba58b0, 29e64bd).  The hash is a TRIPWIRE, not the tie: the tie between a hand-transcribed function and its model is the
+# correspondence run of every check.  A changed hash of an existing function, or a NEW PRIVATE helper of TreeBuilder (name with a leading underscore that
+# is not a method of xml.etree's TreeBuilder: it can only matter through the pinned functions that call it), is listed in SOURCE_CHANGES; check.py then
+# searches under two more seeds and, finding neither a disagreement nor a failing input, prints a NOTE and exits 0.
+# FAIL CLOSED (source_is_pinned = false, obligation source_is_repaired_variant breaks) stays everything the model's validity depends on and the translator
+# cannot interpret: a pinned function that disappeared; a method added to TreeBuilder that is public or overrides one of ET.TreeBuilder (data, comment, pi ...);
+# OFXTree.parse / _read calling anything but what they call today (which parser is used); plus, elsewhere, the regex variant and the start/end/close overrides.
 SOURCE_PINS = {
     "TreeBuilder.__init__": "2130022b4014", "TreeBuilder.start": "a131ccbf3e6c", "TreeBuilder.end": "d7ed0c7e9cfe", "TreeBuilder.close": "250dd3a4a29d",
     "TreeBuilder.feed": "95973ba24b66", "TreeBuilder._feedmatch": "de67ed002250", "TreeBuilder._start": "3c7792462434", "TreeBuilder._groomstring": "31f6d519915d",
-    "OFXTree.parse": "15cea70b865b", "utils.indent": "f30c62958842", "utils.tostring_unclosed_elements": "fb88dc53b9fa",
+    "OFXTree.parse": "15cea70b865b", "OFXTree._read": None, "utils.indent": "f30c62958842", "utils.tostring_unclosed_elements": "fb88dc53b9fa",
 }
+# what OFXTree.parse / _read call (ast.unparse of every call target): a refactor that keeps this set cannot change which parser reads the body
+CALLS = {"OFXTree.parse": ["TreeBuilder", "logger.debug", "logger.info", "parser.close", "parser.feed", "self._read"],
+         "OFXTree._read": ["ValueError", "hasattr", "open", "parse_header", "source.close"]}
+SOURCE_CHANGES = []
 
 
-def ast_hash(f):
+def _fn_ast(f):
     f = getattr(f, "__func__", f)
     t = ast.parse(textwrap.dedent(inspect.getsource(f)))
     for n in ast.walk(t):
         if isinstance(n, ast.FunctionDef) and n.body and isinstance(n.body[0], ast.Expr) \
                 and isinstance(getattr(n.body[0], "value", None), ast.Constant) and isinstance(n.body[0].value.value, str):
             n.body = n.body[1:] or [ast.Pass()]
-    return hashlib.sha1(ast.dump(t).encode()).hexdigest()[:12]
+    return t
+
+
+def ast_hash(f):
+    return hashlib.sha1(ast.dump(_fn_ast(f)).encode()).hexdigest()[:12]
+
+
+def call_targets(f):
+    return sorted({ast.unparse(n.func) for n in ast.walk(_fn_ast(f)) if isinstance(n, ast.Call)})
 
 
 def source_pins(P, U):
-    """-> (hashes, problems)"""
+    """-> (hashes, changes, problems): changes = tripwires (SOURCE_CHANGES), problems = fail closed"""
+    import xml.etree.ElementTree as ET
     items = {}
     for n in ("__init__", "start", "end", "close", "feed", "_feedmatch", "_start", "_groomstring"):
         items["TreeBuilder." + n] = P.TreeBuilder.__dict__.get(n)
     items["OFXTree.parse"] = P.OFXTree.__dict__.get("parse")
+    items["OFXTree._read"] = P.OFXTree.__dict__.get("_read")
     items["utils.indent"] = getattr(U, "indent", None)
     items["utils.tostring_unclosed_elements"] = getattr(U, "tostring_unclosed_elements", None)
-    hashes, problems = {}, []
+    hashes, changes, problems = {}, [], []
     for k, f in items.items():
+        if f is None:
+            hashes[k] = None
+            problems.append("%s: no longer defined" % k)
+            continue
         try:
             hashes[k] = ast_hash(f)
+            if k in CALLS and call_targets(f) != CALLS[k]:
+                problems.append("%s calls %s (pinned: %s): which parser reads the body may have changed" % (k, call_targets(f), CALLS[k]))
+                continue
         except Exception as e:
             hashes[k] = None
             problems.append("%s: cannot hash (%r)" % (k, e))
             continue
-        if hashes[k] != SOURCE_PINS.get(k):
-            problems.append("%s changed (hash %s, pinned %s)" % (k, hashes[k], SOURCE_PINS.get(k)))
+        if SOURCE_PINS.get(k) is not None and hashes[k] != SOURCE_PINS[k]:
+            changes.append("%s (hash %s, transcribed from %s)" % (k, hashes[k], SOURCE_PINS[k]))
     known = {"__init__", "start", "end", "close", "feed", "_feedmatch", "_start", "_groomstring", "regex"}
     for n, v in P.TreeBuilder.__dict__.items():
         if (callable(v) or isinstance(v, (property, classmethod, staticmethod))) and n not in known:
-            problems.append("TreeBuilder.%s: method not modelled" % n)
-    return hashes, problems
+            if n.startswith("_") and not n.startswith("__") and not hasattr(ET.TreeBuilder, n):
+                changes.append("TreeBuilder.%s (new private helper)" % n)
+            else:
+                problems.append("TreeBuilder.%s: method not modelled" % n)
+    return hashes, changes, problems
 
 
 def repo_variant():
@@ -123,9 +151,10 @@ def repo_variant():
         known = False
     import ofxtools.utils as U
     importlib.reload(U)
-    hashes, problems = source_pins(P, U)
+    hashes, changes, problems = source_pins(P, U)
+    SOURCE_CHANGES[:] = changes
     return {"cdata_lazy": lazy, "checked": checked, "pattern": pat, "flags": int(flags), "known": known,
-            "source_hashes": hashes, "source_problems": problems}
+            "source_hashes": hashes, "source_changes": changes, "source_problems": problems}
 
 
 def gen_sgml():
@@ -150,6 +179,7 @@ def gen_sgml():
     body += "Definition pattern_known : bool := %s.\n" % C.cbool(v["known"])
     body += "(* the hand-transcribed functions of Parser.py / utils.py are the ones the models were written against (normalised-AST hashes):\n"
     body += "".join("   %s %s\n" % (k, h) for k, h in sorted(v["source_hashes"].items()))
+    body += "".join("   CHANGED (tripwire; tied by the correspondence run): %s\n" % q.replace("*)", "* )") for q in v["source_changes"])
     body += "".join("   PROBLEM: %s\n" % q.replace("*)", "* )") for q in v["source_problems"]) + "*)\n"
     body += "Definition source_is_pinned : bool := %s.\n" % C.cbool(not v["source_problems"])
     body += "Definition repo_cfg : cfg := {| cdata_lazy := %s; checked := %s |}.\n" % (C.cbool(v["cdata_lazy"]), C.cbool(v["checked"]))
